@@ -10,6 +10,8 @@ import (
 	"fmt"
 	"os"
 	"reflect"
+	"runtime"
+	"sync/atomic"
 	"time"
 )
 
@@ -189,6 +191,27 @@ func vrealclock() { vRealClock = true }
 var vRealClock bool
 
 func vyield() {}
+
+// vjitter: called from log hooks in the concurrent harnesses. Natively, when a
+// schedule-dependent counterexample is being stressed ($VERIF_JITTER), it perturbs the
+// schedule at every log record of the code under test (yield, or a sleep of up to ~100us),
+// which widens windows of a few instructions to something a second goroutine can hit.
+var vJitterOn = os.Getenv("VERIF_JITTER") != ""
+var vJitterState uint64 = 88172645463325252
+
+func vjitter() {
+	if !vJitterOn {
+		return
+	}
+	x := atomic.AddUint64(&vJitterState, 0x9e3779b97f4a7c15)
+	x ^= x >> 29
+	switch x & 15 {
+	case 0, 1, 2, 3:
+		runtime.Gosched()
+	case 4:
+		time.Sleep(time.Duration(1+(x>>8)%100) * time.Microsecond)
+	}
+}
 
 // vquiesce: natively, make every armed timer due on the redirected clock and give the
 // other goroutines real time to run.
